@@ -277,6 +277,24 @@ def _hp_fingerprint(op):
     return fp(op)
 
 
+def _only_cob_reversals(f0, f1):
+    """'same' / 'reversed' (the two fingerprints differ only by reversed operand lists of ChangeOpBasis nodes) / 'different'."""
+    if f0 == f1:
+        return "same"
+    if not (isinstance(f0, list) and isinstance(f1, list) and len(f0) == 4 and len(f1) == 4 and f0[0] == f1[0] and f0[1] == f1[1] and f0[3] == f1[3]
+            and isinstance(f0[2], list) and isinstance(f1[2], list) and len(f0[2]) == len(f1[2])):
+        return "different"
+    kids1 = list(f1[2])
+    rev = False
+    if f0[0] == "ChangeOpBasis" and [k[0] for k in f0[2]] != [k[0] for k in kids1]:
+        kids1 = list(reversed(kids1))
+        rev = True
+    res = [_only_cob_reversals(x, y) for x, y in zip(f0[2], kids1)]
+    if any(r == "different" for r in res):
+        return "different"
+    return "reversed" if rev or any(r == "reversed" for r in res) else "same"
+
+
 def _float_leaf(d):
     return np.asarray(d).dtype.kind in "fc"
 
@@ -318,7 +336,7 @@ def check(spec):
         v = compare(a, b, lab, rt, jaxy=jaxy)
         return v or ok(outcome=fp + [type(b).__name__], nontrivial=True)
     if rt == "capture":
-        if mv_fn or _has_mv(o):
+        if mv_fn or _has_mv(o) or (o["k"] == "cat" and o["g"]["op"] in ("MidMeasure", "PauliMeasure")):
             return skip("capture-not-applicable:measurement-value(objects of qp.measure are tracers under capture)")
         if any(not isinstance(w, int) for w in _spec_wires(o)):
             return skip("capture-not-applicable:non-integer-wire-labels")
@@ -329,6 +347,10 @@ def check(spec):
                 return skip("capture-not-implemented-for-this-measurement(documented NotImplementedError)")
             return bad(f"capture:raises:NotImplementedError:{lab}", f"{e}"[:300], "one bound object")
         except Exception as e:  # noqa: BLE001
+            if (isinstance(e, TypeError) and "is not a valid JAX type" in str(e) and type(a).__name__ in ("Controlled", "ControlledOp")
+                    and hasattr(getattr(a, "base", None), "_bind_primitive")):
+                # one class: the v1 Controlled wrapper (class constructor) around an Operator2 base hands the base object to its primitive
+                return bad("capture:raises:TypeError:v1-Controlled-over-Operator2-base", f"{type(e).__name__}: {e}"[:300], "one bound object", op=lab)
             return bad(f"capture:raises:{type(e).__name__}:{lab}", f"{type(e).__name__}: {e}"[:300], "one bound object")
         if len(objs) != 1:
             return bad(f"capture:count:{lab}", [repr(x)[:80] for x in objs][:6], "exactly one object equal to the original")
@@ -355,6 +377,8 @@ def check(spec):
     # ---- bind_new_parameters
     if _is_mp(a):
         return skip("rebinding-not-applicable:measurement")
+    if any(hasattr(d, "toarray") for d in a.data):
+        return skip("rebinding-not-applicable:sparse-matrix-parameter")
     data0 = [np.array(d, copy=True) for d in a.data]
     if not data0:
         return skip("rebinding-not-applicable:no-parameters")
@@ -378,12 +402,18 @@ def check(spec):
     if type(b) is not type(a):
         return bad(f"{rt}:type-changed:{lab}", type(b).__name__, type(a).__name__)
     lb = [np.asarray(d) for d in b.data]
+    if rt != "bind-same" and o["k"] == "cat" and any(k in o["g"].get("kw", {}) for k in ("normalize", "pad_with")):
+        return skip("rebinding:constructor-normalises-or-pads-its-parameter(documented)")
     if len(lb) != len(new) or not all(_leaf_eq(x, y) for x, y in zip(lb, new)):
         return bad(f"{rt}:parameters-not-the-new-ones:{lab}", [np.asarray(x).tolist() for x in lb][:4], [np.asarray(x).tolist() for x in new][:4])
     if list(b.wires) != list(a.wires):
         return bad(f"{rt}:wires-changed:{lab}", list(b.wires), list(a.wires))
     f1 = _hp_fingerprint(b)
     if f1 != f0:
+        if _only_cob_reversals(f0, f1) == "reversed":
+            # one defect class: the CompositeOp dispatch rebuilds op.__class__(*operands); ChangeOpBasis stores (uncompute, target, compute)
+            # but its constructor takes (compute, target, uncompute)
+            return bad("bind_new_parameters:ChangeOpBasis-operands-reversed", f1[2], f0[2], rt=rt)
         return bad(f"{rt}:other-attributes-changed:{lab}", f1, f0)
     if not all(_leaf_eq(x, y) for x, y in zip([np.asarray(d) for d in a.data], data0)):
         return bad(f"{rt}:original-mutated:{lab}", [np.asarray(x).tolist() for x in a.data][:4], [x.tolist() for x in data0][:4])
@@ -429,8 +459,12 @@ def run(ctx):
                 keep.append(o)
         objs = keep
     exprs = [] if (only and "expr" not in only) else O.expression_objects(tier)
-    if tier == "quick":
-        exprs = [e for e in exprs if O.X.depth(e["e"]) <= 1][::3] + [e for e in exprs if O.X.depth(e["e"]) > 1][::4]
+    if tier == "quick":  # every 3rd / 4th expression plus every expression with >= 2 parametrized leaves (rebinding cursor)
+        par = {"RX0", "RZ1", "PS0", "RX0s", "Herm0"}
+        d1 = [e for e in exprs if O.X.depth(e["e"]) <= 1]
+        d2 = [e for e in exprs if O.X.depth(e["e"]) > 1]
+        two = [e for e in d1 if sum(1 for lf in O.X.leaves(e["e"]) if lf in par) >= 2]
+        exprs = d1[::3] + [e for e in two if e not in d1[::3]] + d2[::4]
     mps = [] if (only and "mp" not in only) else O.measurements(tier)
     rts = RTS if not (only and any(t in RTS for t in only)) else [t for t in only if t in RTS]
     for rt in rts:
